@@ -110,3 +110,10 @@ Theorem C12_reflection_negates_signed_volumes : forall Q b v ts, det3 Q = -1 -> 
   forall t, In t ts -> tet_vol6 Rops (map (rigid Q b) v) t = - tet_vol6 Rops v t.
 Proof. exact tet_reflection_negates. Qed.
 Print Assumptions C12_reflection_negates_signed_volumes.
+
+(* so a reflected oriented mesh is reported unoriented, and orient_ then swaps every one of its tetrahedra *)
+Theorem C12_reflected_oriented_mesh_is_unoriented_and_fully_repaired : forall Q b v ts, det3 Q = -1 -> tets_in_range (length v) ts ->
+  tet_is_oriented Rops v ts = true ->
+  tet_is_oriented Rops (map (rigid Q b) v) ts = false /\ snd (tet_orient Rops (map (rigid Q b) v) ts) = length ts.
+Proof. exact tet_reflection_unorients. Qed.
+Print Assumptions C12_reflected_oriented_mesh_is_unoriented_and_fully_repaired.
